@@ -71,6 +71,29 @@ def run(ctx, config="all"):
                               meth, meth, len(dir_calls), meth, len(eqs), len(wrong), other))
             continue
         zs = zip_sides(v)
+        if len(zs) == 0:
+            # index form: `for i in .. { self.limbs[i].ct_gt(&rhs.limbs[i]) }` -- same position = same index variable
+            ok = True
+            for label, (bi, t) in ((meth, dir_calls[0]), ("ct_eq", eqs[0])):
+                s0, s1 = Slice(v), Slice(v)
+                s0.operand(t["args"][0])
+                s1.operand(t["args"][1])
+                p0, p1 = s0.params - s0.index_locals, s1.params - s1.index_locals
+                if not s0.index_locals or s0.index_locals != s1.index_locals:
+                    rep.violation(meth + "|operands:" + label, v.where(bi), "operands of the per-limb %s are neither the two "
+                                  "fields of one zip item nor limbs at one index variable (positions may differ)" % label)
+                    ok = False
+                elif label == meth and (p0, p1) == ({2}, {1}):
+                    rep.violation(meth + "|operands:" + label, v.where(bi), "per-limb %s is called as (rhs_limb, self_limb): the "
+                                  "direction is inverted" % label)
+                    ok = False
+                elif {frozenset(p0), frozenset(p1)} != {frozenset({1}), frozenset({2})}:
+                    rep.violation(meth + "|operands:" + label, v.where(bi), "per-limb %s does not compare the self limb with the "
+                                  "rhs limb (operands derive from parameters %s and %s)" % (label, sorted(p0), sorted(p1)))
+                    ok = False
+            if ok:
+                rep.ok(meth, where, "%s over self.limbs[i], rhs.limbs[i] at one index variable" % prim.split("::")[-1])
+            continue
         if len(zs) != 1:
             rep.violation(meth + "|zip", where, "expected one zip of the two limb iterators (shape not recognised): %d" % len(zs))
             continue
